@@ -76,7 +76,8 @@ OUTSIDE = [
     'the free-text grammar of commands is not symbolic (regex / tokeniser on symbolic text is out of reach): command texts are concrete lists; symbolic are chunking, '
     'character classes, callee outcomes, fault points, selector terms (from pools), command choice',
     'lines longer than MAX_COMMAND_SIZE (1 MiB), non-ASCII bytes, OSError from os.read, several helper processes interleaved, the unused synchronous twin Processes.received()',
-    'actual delivery of the queued reply bytes to the helper (flush_write_queue, EAGAIN, EPIPE, back-pressure)',
+    'delivery of the queued replies: EPIPE / other OSError (the helper is gone), the back-pressure wait of write_with_backpressure, more than one helper; '
+    'reply/delivery covers complete / partial / EAGAIN writes of the real flush_write_queue over 3 (4) main-loop iterations',
     'sync mode (`sync` keyword / `session sync enable`) with connected peers: the wait for the RIB flush needs the event loop; multiple simultaneous faults; faults in reactor getters',
     'JSON acknowledgements (_ackjson True is never set by _start), `session ack disable/silence` followed by further commands (acknowledgements off)',
     'what a valid command does to the RIB beyond WHICH neighbors change (C04/C18), atomicity of a group (its docstring says all-or-nothing: not part of C14)',
@@ -404,6 +405,96 @@ def mk_answering_processes():
     p.flush_write_queue = _no_flush
     p._write_queue[SVC] = collections.deque()
     return p
+
+
+class _WriteOS(_OS):
+    """os stand-in whose write() has the outcome the path chose: everything, a proper prefix, or EAGAIN (pipe full)."""
+
+    def __init__(self, ctx):
+        _OS.__init__(self)
+        self.ctx = ctx
+        self.delivered = b''
+        self.calls = 0
+        self.budget = 0          # writes with a chosen outcome left; afterwards the helper reads again (everything is taken)
+
+    def write(self, fd, data):
+        import errno
+        data = bytes(data)
+        self.calls += 1
+        if self.budget <= 0:
+            self.delivered += data
+            return len(data)
+        self.budget -= 1
+        how = self.ctx.choice('write%d' % self.calls, 3)
+        if how == 0:
+            self.ctx.cover('written')
+            self.delivered += data
+            return len(data)
+        if how == 1 and len(data) > 1:
+            n = self.ctx.concretize(self.ctx.int('taken%d' % self.calls, 1, len(data) - 1))
+            self.ctx.cover('partial-write')
+            self.delivered += data[:n]
+            return n
+        self.ctx.cover('pipe-full')
+        raise OSError(errno.EAGAIN, 'Resource temporarily unavailable')
+
+
+def h_delivery(ctx, rounds, faults):
+    """The replies as the HELPER reads them.  The real Processes.write / answer_done / answer_error queue replies and the real
+    flush_write_queue hands them to os.write, which takes everything, a proper prefix, or nothing (EAGAIN: the helper is
+    not reading) as the path chooses, for the first `faults` writes.  In every main-loop iteration zero, one or two new
+    replies are queued, then the queue is flushed.  What the helper has read so far is a prefix of the replies in the
+    order they were given, and what it has read plus what still waits is all of them: none lost, none twice, none moved."""
+    p = mk_processes()
+    p._write_queue[SVC] = collections.deque()
+    fake = _WriteOS(ctx)
+    fake.budget = faults
+    pm.os = fake
+    expected = b''
+    k = 0
+    try:
+        for r in range(rounds):
+            add = ctx.choice('replies%d' % r, 3)
+            for _ in range(add):
+                mark = len(p._write_queue[SVC])
+                which = k % 3
+                if which == 0:
+                    p.write(SVC, 'reply %d' % k)           # the text before a terminal
+                    new = list(p._write_queue[SVC])[mark:]
+                    expected += b''.join(bytes(x) for x in new)
+                elif which == 1:
+                    # answer_done queues AND flushes (the acknowledgement is flushed at once): what it queued goes first in `expected`
+                    before = fake.delivered + b''.join(bytes(x) for x in p._write_queue[SVC])
+                    drive(p.answer_done(SVC))
+                    after = fake.delivered + b''.join(bytes(x) for x in p._write_queue[SVC])
+                    ctx.check('reply:delivery:answer-appends', after[:len(before)] == before, sig='C14:reply:delivery:reply-moved-or-lost',
+                              info={'before': before, 'after': after})
+                    expected += after[len(before):]
+                else:
+                    before = fake.delivered + b''.join(bytes(x) for x in p._write_queue[SVC])
+                    drive(p.answer_error(SVC))
+                    after = fake.delivered + b''.join(bytes(x) for x in p._write_queue[SVC])
+                    ctx.check('reply:delivery:answer-appends', after[:len(before)] == before, sig='C14:reply:delivery:reply-moved-or-lost',
+                              info={'before': before, 'after': after})
+                    expected += after[len(before):]
+                k += 1
+            drive(p.flush_write_queue())
+            waiting = b''.join(bytes(x) for x in p._write_queue.get(SVC, ()))
+            ctx.check('reply:delivery:in-order', expected[:len(fake.delivered)] == fake.delivered, sig='C14:reply:delivery:out-of-order',
+                      info={'round': r, 'read-by-helper': fake.delivered, 'given': expected})
+            ctx.check('reply:delivery:none-lost-none-twice', fake.delivered + waiting == expected, sig='C14:reply:delivery:reply-moved-or-lost',
+                      info={'round': r, 'read-by-helper': fake.delivered, 'waiting': waiting, 'given': expected})
+        # the helper reads again: everything is taken from now on
+        fake.budget = 0
+        for _ in range(4):
+            drive(p.flush_write_queue())
+        ctx.check('reply:delivery:all-delivered', fake.delivered == expected, sig='C14:reply:delivery:final-stream-differs',
+                  info={'read-by-helper': fake.delivered, 'given': expected})
+        if k >= 2:
+            ctx.cover('two-replies')
+    finally:
+        pm.os = _OS()
+    return [fake.delivered.decode('ascii', 'replace'), fake.calls]
 
 
 def reset_world():
@@ -1279,6 +1370,9 @@ def units(tier):
         for a in range(3):
             us.append(Unit('reassembly/L12/%s' % 'nwo'[a], lambda ctx, f=(a,): h_reassembly(ctx, 12, 3, fixed=f, sym=1, modes=(0,)),
                            must_cover=('split', 'partial-line-kept'), weight=100000, max_seconds=3000, max_paths=400000))
+    # ---- delivery of the queued replies
+    us.append(Unit('reply/delivery', lambda ctx: h_delivery(ctx, 4 if th else 3, 4 if th else 3),
+                   must_cover=('written', 'partial-write', 'pipe-full', 'two-replies'), weight=3000, max_seconds=1200, max_paths=200000))
     # ---- (b)
     v6 = v6_commands()
     v4 = v4_commands()
